@@ -831,9 +831,14 @@ impl World {
                 if profile.cover_iter.is_some() {
                     DEFAULT_CORES
                 } else {
-                    // small counts dominate real machines; a few odd and large ones for chunking arithmetic
-                    const C: [u32; 16] = [1, 1, 2, 2, 3, 4, 4, 5, 6, 7, 8, 8, 12, 16, 61, 128];
-                    C[aux.below(C.len() as u64) as usize]
+                    // half of the runs: the counts most machines report; the other half: anything
+                    // from 1 to 128 (chunking arithmetic goes wrong at particular counts)
+                    const C: [u32; 8] = [1, 2, 4, 4, 8, 8, 12, 16];
+                    if aux.chance(1, 2) {
+                        C[aux.below(C.len() as u64) as usize]
+                    } else {
+                        1 + aux.below(128) as u32
+                    }
                 }
             }
             Mode::Replay(ReplayPlan { q, .. }) => match q.front() {
